@@ -9,6 +9,7 @@ lemmas E / L0 / L1 / P are reused unchanged.
 import Proofs.ResolverStaticTree3
 import Proofs.ResolverStaticEvalR
 import Proofs.DataflowErase
+import Proofs.DataflowApprox
 
 namespace Proofs.ResolverStatic
 open Martian.Dataflow Martian.Resolver Martian.ResolverForks Martian.ResolverStatic Proofs.Dataflow
@@ -17,7 +18,7 @@ open Martian.Dataflow Martian.Resolver Martian.ResolverForks Martian.ResolverSta
 def eraseInst (i : Inst) : Inst := { i with args := J.erase i.args }
 
 /-- the recorded stage outputs are JSON: no `dnull` inside -/
-def OracleClean (O : Oracle) : Prop := ∀ k v, O k = some v → J.erase v = v
+def OracleClean (O : Oracle) : Prop := ∀ k v, O k = some v → J.clean v = true
 
 def CallClean (c : Call) : Prop :=
   (∀ b ∈ c.binds, Exp.clean b.exp = true) ∧ ∀ d, c.disabled = some d → Exp.clean d.2 = true
@@ -528,7 +529,7 @@ theorem refine_callableE :
           congr 1
           cases ho : O ⟨path, forks⟩ with
           | none => rfl
-          | some v => exact hO _ _ ho
+          | some v => exact Proofs.Approx.erase_clean _ (hO _ _ ho)
         · simp only [HasTyR, pathTy]
           exact Sub.refl _
         · intro f hf
